@@ -1144,7 +1144,7 @@ class Normalizer:
                 # b[mask] = f(x[mask])  is the elementwise selection where(mask, f(x), b)
                 v2 = _unmask(val, idx)
                 if v2 is not None:
-                    return _mk_where(fi, wrap(self.nf(v2)), wrap(self.nf(base)))
+                    return self.nf(Term("where3", idx, v2, base))
             return P_atom(A("store", wrap(self.nf(base)), fi, wrap(self.nf(val))))
         if op == "where3" and len(a) == 3 and isinstance(a[0], Term) and a[0].op == "store" and len(a[0].args) == 3:
             # where(m, x, c) with the mask m = (all True, then m[idx] = False): x with x[idx] = c
